@@ -1,0 +1,69 @@
+//go:build verif
+
+package vgirpc
+
+import "strings"
+
+// VerifConst is one named constant exported to the verification models.
+// Exactly one of Bytes / Num / List is meaningful, selected by Kind.
+type VerifConst struct {
+	Name  string
+	Kind  string // "bytes" | "num" | "list"
+	Bytes string
+	Num   int64
+	List  []string
+}
+
+var verifConstProviders []func() []VerifConst
+
+// VerifConstants returns every constant the verification models are stated
+// over, as evaluated by the compiled code (never copied by hand).
+func VerifConstants() []VerifConst {
+	var out []VerifConst
+	for _, p := range verifConstProviders {
+		out = append(out, p()...)
+	}
+	return out
+}
+
+func verifBytes(name, v string) VerifConst { return VerifConst{Name: name, Kind: "bytes", Bytes: v} }
+func verifNum(name string, v int64) VerifConst {
+	return VerifConst{Name: name, Kind: "num", Num: v}
+}
+func verifList(name string, v []string) VerifConst {
+	return VerifConst{Name: name, Kind: "list", List: v}
+}
+
+func init() {
+	verifConstProviders = append(verifConstProviders, func() []VerifConst {
+		// WWW-Authenticate parameter names, recovered from what the builder emits.
+		h0 := buildWWWAuthenticate("", &OAuthResourceMetadata{})
+		sp := strings.IndexByte(h0, ' ')
+		name := func(m *OAuthResourceMetadata) string {
+			h := buildWWWAuthenticate("", m)
+			s := strings.TrimPrefix(h[len(h0):], ", ")
+			return s[:strings.Index(s, `="`)]
+		}
+		val := func(m *OAuthResourceMetadata) string {
+			h := buildWWWAuthenticate("", m)
+			s := h[len(h0):]
+			s = s[strings.Index(s, `="`)+2:]
+			return s[:strings.IndexByte(s, '"')]
+		}
+		return []VerifConst{
+			verifBytes("www_scheme_prefix", h0[:sp+1]),
+			verifBytes("p_resource_metadata", h0[sp+1:strings.Index(h0, `="`)]),
+			verifBytes("p_client_id", name(&OAuthResourceMetadata{ClientID: "X"})),
+			verifBytes("p_use_id_token", name(&OAuthResourceMetadata{UseIDTokenAsBearer: true})),
+			verifBytes("www_true", val(&OAuthResourceMetadata{UseIDTokenAsBearer: true})),
+			verifBytes("p_client_secret", name(&OAuthResourceMetadata{ClientSecret: "X"})),
+			verifBytes("p_dc_client_id", name(&OAuthResourceMetadata{DeviceCodeClientID: "X"})),
+			verifBytes("p_dc_client_secret", name(&OAuthResourceMetadata{DeviceCodeClientSecret: "X"})),
+		}
+	})
+}
+
+// VerifBuildWWWAuthenticate exposes buildWWWAuthenticate.
+func VerifBuildWWWAuthenticate(metadataURL string, m *OAuthResourceMetadata) string {
+	return buildWWWAuthenticate(metadataURL, m)
+}
